@@ -372,7 +372,7 @@ def deactivate_facts(tree, src):
     f0 = top_func(tree, "deactivate")
     if params(f0):
         raise Untranslatable("deactivate: parameters changed")
-    f = canonical_function(tree, f0, DEACT_LOCALS)
+    f = py2v.normalize_func(f0, rename_locals=False)      # noise stripped; local names are captured below, not fixed
     f.lineno = f0.lineno
     body = strip_doc(f.body)
     clear_first = clear_last = in_finally = False
@@ -391,15 +391,34 @@ def deactivate_facts(tree, src):
     if len(body) != 3:
         raise Untranslatable(f"deactivate: expected collect / delete / re-import, found {len(body)} statements")
     s0, s1, s2 = body
-    if not same(s0, 'pyspark_imports = [k for k in sys.modules if k.startswith("pyspark")]'):
+    # s0: L = [x for x in sys.modules if x.startswith("pyspark")]   (L, x: any names)
+    if not (isinstance(s0, ast.Assign) and len(s0.targets) == 1 and isinstance(s0.targets[0], ast.Name)
+            and isinstance(s0.value, ast.ListComp) and len(s0.value.generators) == 1
+            and isinstance(s0.value.generators[0].target, ast.Name)):
         raise Untranslatable("deactivate: collection of the pyspark keys has another shape")
-    if not same(s1, "for k, v in sys.modules.copy().items():\n    if k in pyspark_imports:\n        del sys.modules[k]"):
+    L, x = s0.targets[0].id, s0.value.generators[0].target.id
+    if L == x or not same(s0, f'{L} = [{x} for {x} in sys.modules if {x}.startswith("pyspark")]'):
+        raise Untranslatable("deactivate: collection of the pyspark keys has another shape")
+    # s1: every collected key is deleted -- by filtering a copy of sys.modules with the list, or by walking the list itself
+    #     (the list was computed from sys.modules in the statement before: every key is present, exactly once)
+    ok1 = False
+    if isinstance(s1, ast.For) and not s1.orelse:
+        tg = s1.target
+        if isinstance(tg, ast.Tuple) and len(tg.elts) == 2 and all(isinstance(e, ast.Name) for e in tg.elts):
+            a, b = tg.elts[0].id, tg.elts[1].id
+            ok1 = len({a, b, L}) == 3 and same(s1, f"for {a}, {b} in sys.modules.copy().items():\n    if {a} in {L}:\n"
+                                                   f"        del sys.modules[{a}]")
+        elif isinstance(tg, ast.Name):
+            a = tg.id
+            ok1 = a != L and same(s1, f"for {a} in {L}:\n    del sys.modules[{a}]")
+    if not ok1:
         raise Untranslatable("deactivate: deletion loop has another shape")
-    if not (isinstance(s2, ast.For) and not s2.orelse and dotted(s2.target) == "k"
-            and dotted(s2.iter) == "pyspark_imports" and len(s2.body) == 1 and isinstance(s2.body[0], ast.Try)):
+    if not (isinstance(s2, ast.For) and not s2.orelse and isinstance(s2.target, ast.Name) and s2.target.id != L
+            and dotted(s2.iter) == L and len(s2.body) == 1 and isinstance(s2.body[0], ast.Try)):
         raise Untranslatable("deactivate: re-import loop has another shape")
+    k = s2.target.id
     tr = s2.body[0]
-    if not (len(tr.body) == 1 and same(tr.body[0], "sys.modules[k] = importlib.import_module(k)")
+    if not (len(tr.body) == 1 and same(tr.body[0], f"sys.modules[{k}] = importlib.import_module({k})")
             and not tr.orelse and not tr.finalbody and len(tr.handlers) == 1
             and len(tr.handlers[0].body) == 1 and isinstance(tr.handlers[0].body[0], ast.Pass)):
         raise Untranslatable("deactivate: try/except in the re-import loop has another shape")
